@@ -170,7 +170,13 @@ def msg_from_spec(spec):
         m.locator = loc
         m.hashstop = bytes.fromhex(f['stop'])
     elif t == 'headers':
-        m.headers = [header_from_spec(h) for h in f['headers']]
+        hs = [header_from_spec(h) for h in f['headers']]
+        if len(hs) % 3 == 1:
+            # a headers message built from what the node has at hand: whole block objects (a CBlock IS a
+            # CBlockHeader); only their 80 header bytes belong on the wire
+            import bitcoin.core as C
+            hs = [C.CBlock(x.nVersion, x.hashPrevBlock, x.hashMerkleRoot, x.nTime, x.nBits, x.nNonce) if k % 2 == 0 else x for k, x in enumerate(hs)]
+        m.headers = hs
     elif t == 'tx':
         m.tx = tx_from_spec(f['tx'])
     elif t == 'block':
